@@ -154,6 +154,10 @@ def check_case(ctx, case):
     if fam == "i":
         ctx.count("family_i")
         sub = "signature"
+        if cls == "StereoMolGraph" and shadow_signature(a) == shadow_signature(b):
+            # the graphs only differ in bonds that no descriptor of their (descriptor-carrying) end atoms lists
+            sub = "descriptor-shadowed-bonds"
+            ctx.count("family_i_descriptor_shadowed")
     elif fam == "ii":
         ctx.count("family_ii_" + case["unit"])
         sub = case["unit"]
